@@ -82,7 +82,7 @@ def templates(toks):
     return res
 
 
-def classify(body, fname, free, absroots, members, singles, relroots, methods):
+def classify(body, fname, free, absroots, members, singles, relroots, methods, selfpaths):
     n = len(body)
     if n == 1 and body[0][0] == 'id':
         # a fragment that is one identifier: spliced into another template (a method name behind `.`), or not generated
@@ -127,6 +127,10 @@ def classify(body, fname, free, absroots, members, singles, relroots, methods):
                         absroots.setdefault(root, f'{fname}:{ln}')
                 else:
                     members.setdefault(t, f'{fname}:{ln}')
+                    if before[0] == 'id' and before[1] == 'Self' and i == j + 1:
+                        # `Self::name` with a literal name: looked up among the variants and inherent items of the
+                        # user's type before the traits
+                        selfpaths.setdefault((t, fname.split('/')[-1]), f'{fname}:{ln}')
                     if before[0] == 'id' and before[1] in ('crate', 'super', 'self'):
                         # a path relative to the *user's* crate or module
                         relroots.setdefault(before[1], f'{fname}:{ln}')
@@ -148,7 +152,7 @@ def classify(body, fname, free, absroots, members, singles, relroots, methods):
 def main():
     repo = sys.argv[1] if len(sys.argv) > 1 else os.environ.get('VERIF_REPO', '/repo')
     src = os.path.join(repo, 'derive-ex', 'src')
-    free, absroots, members, fmts, singles, prefixes, relroots, methods = {}, {}, {}, {}, {}, {}, {}, {}
+    free, absroots, members, fmts, singles, prefixes, relroots, methods, selfpaths = {}, {}, {}, {}, {}, {}, {}, {}, {}
     ntempl = 0
     for root, _, files in os.walk(src):
         for f in sorted(files):
@@ -163,7 +167,7 @@ def main():
             toks = lex(text)
             for name, body, ln in templates(toks):
                 ntempl += 1
-                classify(body, rel, free, absroots, members, singles, relroots, methods)
+                classify(body, rel, free, absroots, members, singles, relroots, methods, selfpaths)
                 # nested templates inside a template body are rare; handled by the outer walk
             for i, (k, t, ln) in enumerate(toks):
                 if k == 'id' and t == 'format_ident' and toks[i + 1][1] == '!' and toks[i + 3][0] == 'str':
@@ -188,6 +192,8 @@ def main():
     print('def quoteRelRoots : List String := ' + lean_list(relroots))
     print('/-- names called in method syntax (`x.name(..)`): looked up among the traits in scope of the user as well -/')
     print('def quoteMethods : List String := ' + lean_list(methods))
+    print('/-- `Self::name` with the name written literally, and the file: resolved among the variants of the user\'s type first -/')
+    print('def quoteSelfPaths : List (String × String) := [' + ', '.join(f'("{k[0]}", "{k[1]}")' for k in sorted(selfpaths)) + ']')
     print('/-- format strings of `format_ident!` -/')
     print('def quoteFormatIdents : List String := ' + lean_list({k.strip('"'): v for k, v in fmts.items()}))
     print('/-- prefixes of per-field binders and helper functions: the string literals passed to `make_ident` / `make_pat*` -/')
